@@ -187,7 +187,7 @@ impl ConverterBuilder {
         let best = enum_map! {
             q =>  {
                 if let Some(best_units) = &self.best_units[q] {
-                    BestConversionsStore::new(best_units, &self.unit_index, &self.all_units)?
+                    BestConversionsStore::new(best_units, &self.unit_index, &self.all_units, q)?
                 } else {
                     return Err(ConverterBuilderError::EmptyBest { reason: "no best units given", quantity: q })
                 }
@@ -231,14 +231,15 @@ impl BestConversionsStore {
         best_units: &BestUnits,
         unit_index: &UnitIndex,
         all_units: &[UnitBuilder],
+        quantity: PhysicalQuantity,
     ) -> Result<Self, ConverterBuilderError> {
         let v = match best_units {
             BestUnits::Unified(names) => {
-                Self::Unified(BestConversions::new(names, unit_index, all_units)?)
+                Self::Unified(BestConversions::new(names, unit_index, all_units, quantity)?)
             }
             BestUnits::BySystem { metric, imperial } => Self::BySystem {
-                metric: BestConversions::new(metric, unit_index, all_units)?,
-                imperial: BestConversions::new(imperial, unit_index, all_units)?,
+                metric: BestConversions::new(metric, unit_index, all_units, quantity)?,
+                imperial: BestConversions::new(imperial, unit_index, all_units, quantity)?,
             },
         };
         Ok(v)
@@ -250,11 +251,23 @@ impl BestConversions {
         units: &[String],
         unit_index: &UnitIndex,
         all_units: &[UnitBuilder],
+        quantity: PhysicalQuantity,
     ) -> Result<Self, ConverterBuilderError> {
         let mut units = units
             .iter()
             .map(|n| unit_index.get_unit_id(n))
             .collect::<Result<Vec<_>, _>>()?;
+
+        // the best units of a quantity have to be units of that quantity
+        if let Some(id) = units
+            .iter()
+            .find(|id| all_units[**id].physical_quantity != quantity)
+        {
+            return Err(ConverterBuilderError::IncorrectBestUnit {
+                quantity,
+                unit: Box::new(all_units[*id].unit.clone()),
+            });
+        }
 
         units.sort_by(|a, b| {
             let a = &all_units[*a];
@@ -562,6 +575,12 @@ pub enum ConverterBuilderError {
     EmptyBest {
         reason: &'static str,
         quantity: PhysicalQuantity,
+    },
+
+    #[error("Best unit for '{quantity}' is a unit of {}: {}", unit.physical_quantity, unit)]
+    IncorrectBestUnit {
+        quantity: PhysicalQuantity,
+        unit: Box<Unit>,
     },
 
     #[error("No SI prefixes found when expandind SI on a unit")]
